@@ -4,6 +4,7 @@ OCDIR=/verif/ocaml
 .PHONY: setup coq extract clean forbidden
 setup: coq extract forbidden
 coq:
+	mkdir -p $(COQDIR)/Gen && python3 /verif/translate/tlsconf.py $(COQDIR)/Gen/TlsConfigGen.v
 	cd $(COQDIR) && coq_makefile -f _CoqProject -o Makefile.coq >/dev/null && timeout 3000 $(MAKE) -f Makefile.coq -j16 > build.log 2>&1 || (tail -40 build.log; exit 1)
 extract: coq
 	mkdir -p $(OCDIR)/gen && cd $(OCDIR)/gen && timeout 600 coqc -Q $(COQDIR) NV $(COQDIR)/Extract/Extract.v > extract.log 2>&1 || (cat extract.log; exit 1)
